@@ -34,6 +34,14 @@ func timeEpocEnv() (time.Time, error) {
 	return time.Unix(secI, 0), nil
 }
 
+// timePtrEqual compares two optional times.
+func timePtrEqual(a, b *time.Time) bool {
+	if a == nil || b == nil {
+		return a == b
+	}
+	return a.Equal(*b)
+}
+
 // timeModOpt adjusts time t according to the opts.
 // The bool indicates if the time was changed.
 func timeModOpt(t time.Time, opt OptTime) (time.Time, bool) {
